@@ -679,6 +679,10 @@ class Config:
             return res
         exc_cls = outcomes[k]
         exc = path.new_exception(exc_cls)
+        # contract kwarg `exc_fields={ExcClass: {name: T}}`: attributes of the raised exception that the
+        # `raises` clause talks about (fresh values of the declared types, constrained by the clause)
+        for fname, ft in ((c2.extra.get('exc_fields') or {}).get(exc_cls) or {}).items():
+            path.wobj(exc).fields[fname] = self.fresh(path, ft, f'exc.{fname}')
         env2['exc'] = exc
         post = c2.raises[exc_cls]
         if post is not None:
